@@ -150,12 +150,22 @@ def _is_literal(e):
     return False
 
 
+_RE_FUNCS = ('search', 'match', 'fullmatch', 'sub', 'subn', 'split', 'findall', 'finditer')
+
+
+def _is_re_compile(e):
+    return isinstance(e, ast.Call) and ast.unparse(e.func) == 're.compile' and not e.keywords and len(e.args) in (1, 2) \
+        and isinstance(e.args[0], ast.Constant) and (len(e.args) == 1 or all(isinstance(x, (ast.Name, ast.Attribute, ast.BinOp, ast.BitOr, ast.Load))
+                                                                          for x in ast.walk(e.args[1])))
+
+
 def _inline_new_constants(tree, ref_consts, done):
     """a module-level name the reference module does not have, bound once to a literal (tuple of strings, number, string) and never
     re-bound or mutated: its uses read as the literal again ("magic value moved into a constant" undone)"""
     cands = {}
     for st in tree.body:
-        if isinstance(st, ast.Assign) and len(st.targets) == 1 and isinstance(st.targets[0], ast.Name) and _is_literal(st.value):
+        if isinstance(st, ast.Assign) and len(st.targets) == 1 and isinstance(st.targets[0], ast.Name) and \
+                (_is_literal(st.value) or _is_re_compile(st.value)):
             nm = st.targets[0].id
             if nm not in ref_consts and not nm.startswith('__'):
                 cands[nm] = st
@@ -163,7 +173,27 @@ def _inline_new_constants(tree, ref_consts, done):
         stores = [n for n in ast.walk(tree) if isinstance(n, ast.Name) and n.id == nm and isinstance(n.ctx, (ast.Store, ast.Del))]
         glob = [n for n in ast.walk(tree) if isinstance(n, ast.Global) and nm in n.names]
         attr_use = [n for n in ast.walk(tree) if isinstance(n, ast.Attribute) and isinstance(n.value, ast.Name) and n.value.id == nm]
-        if len(stores) != 1 or glob or attr_use or isinstance(st.value, (ast.List, ast.Set)):
+        if len(stores) != 1 or glob or isinstance(st.value, (ast.List, ast.Set)):
+            continue
+        if _is_re_compile(st.value):
+            # a pattern moved into a pre-compiled module constant: `NAME.search(text)` reads as `re.search(<pattern>, text)` again
+            loads = [n for n in ast.walk(tree) if isinstance(n, ast.Name) and n.id == nm and isinstance(n.ctx, ast.Load)]
+            calls = [c for c in ast.walk(tree) if isinstance(c, ast.Call) and isinstance(c.func, ast.Attribute) and c.func.value in loads
+                     and c.func.attr in _RE_FUNCS and not c.keywords and not any(isinstance(x, ast.Starred) for x in c.args)]
+            if not loads or len(calls) != len(loads):
+                continue
+            for c in calls:
+                c.func.value = ast.copy_location(ast.Name(id='re', ctx=ast.Load()), c.func.value)
+                c.args = [copy.deepcopy(st.value.args[0])] + c.args
+                if len(st.value.args) == 2:
+                    c.keywords = [ast.keyword(arg='flags', value=copy.deepcopy(st.value.args[1]))]
+                for x in ast.walk(c.args[0]):
+                    ast.copy_location(x, c)
+                ast.fix_missing_locations(c)
+            tree.body.remove(st)
+            done.append(('<module>', nm, '<new pre-compiled pattern constant read as re.<function>(pattern, ...) at its %d use(s)>' % len(calls)))
+            continue
+        if attr_use:
             continue
         sub = _Subst(nm, st.value)
         for i, t in enumerate(tree.body):
@@ -236,6 +266,54 @@ def _replace_returns(stmts, make):
     return rec(stmts)
 
 
+def _fold_returns(stmts, env=None):
+    """a loop-free helper body made of pure temporaries, `if T: return A` guards and a final `return E` as ONE expression
+    (`A if T else E`, nested); None when the body has any other statement.  Exactly equivalent: tests and results are evaluated in
+    the same order and under the same conditions as in the statement form."""
+    env = dict(env or {})
+
+    def sub(e):
+        e = copy.deepcopy(e)
+
+        class _S(ast.NodeTransformer):
+            def visit_Name(self, node):
+                if isinstance(node.ctx, ast.Load) and node.id in env:
+                    return ast.copy_location(copy.deepcopy(env[node.id]), node)
+                return node
+        return _S().visit(e)
+    if not stmts:
+        return None
+    st, rest = stmts[0], stmts[1:]
+    if isinstance(st, ast.Return):
+        return sub(st.value) if st.value is not None else ast.Constant(value=None)
+    if isinstance(st, ast.Assign) and len(st.targets) == 1 and isinstance(st.targets[0], ast.Name):
+        nm = st.targets[0].id
+        val = sub(st.value)
+        later_stores = [x for r in rest for x in ast.walk(r) if isinstance(x, ast.Name) and x.id == nm and isinstance(x.ctx, (ast.Store, ast.Del))]
+        reads = {x.id for x in ast.walk(val) if isinstance(x, ast.Name)}
+        if later_stores or not _is_pure_attr_chain(val) or any(isinstance(x, ast.Name) and x.id in reads and isinstance(x.ctx, (ast.Store, ast.Del))
+                                                           for r in rest for x in ast.walk(r)):
+            return None
+        env[nm] = val
+        return _fold_returns(rest, env)
+    if isinstance(st, ast.If):
+        then = _fold_returns(st.body, env)
+        if then is None:
+            return None
+        other = _fold_returns(st.orelse, env) if st.orelse else _fold_returns(rest, env)
+        if other is None:
+            return None
+        if st.orelse and rest:
+            return None
+        e = ast.IfExp(test=sub(st.test), body=then, orelse=other)
+        return e
+    return None
+
+
+def _is_pure_attr_chain(e):
+    return all(isinstance(x, (ast.Name, ast.Attribute, ast.Constant, ast.Load)) for x in ast.walk(e))
+
+
 def _inline_new_helpers(tree, ref_funcs, done):
     # candidates: new module-level functions (called as `name(...)`) and new methods (called as `self.name(...)` inside their class)
     cands = [(n, None, tree.body) for n in tree.body if isinstance(n, ast.FunctionDef)]
@@ -259,193 +337,202 @@ def _inline_new_helpers(tree, ref_funcs, done):
         else:
             # every mention of the attribute name in the module counts (other classes may call it through an instance: leave it then)
             refs = [n for n in ast.walk(tree) if isinstance(n, ast.Attribute) and n.attr == helper.name]
-            if len(refs) == 1 and not (isinstance(refs[0].value, ast.Name) and refs[0].value.id == 'self' and any(x is refs[0] for x in ast.walk(cls))):
+            if any(not (isinstance(r.value, ast.Name) and r.value.id == 'self' and any(x is r for x in ast.walk(cls))) for r in refs):
                 continue
             if any(isinstance(n, ast.Constant) and n.value == helper.name for n in ast.walk(tree)):
                 continue        # reached reflectively (getattr by name)
-        if len(refs) != 1:
+        if not 1 <= len(refs) <= 6:
             continue
-        # the one reference must be the callee of a call that is a whole statement value inside another function
-        # B0: a helper whose body is one `return <expr>` is inlined as an expression, whatever the context of the call
-        #     (comprehension condition, operand of `and`, argument): parameters are substituted by the argument expressions
-        body0 = _strip_doc(helper.body)
-        callers = [c for c in ast.walk(tree) if isinstance(c, ast.Call) and c.func is refs[0]]
-        if len(body0) == 1 and isinstance(body0[0], ast.Return) and body0[0].value is not None and len(callers) == 1:
-            call = callers[0]
-            params0 = [x.arg for x in a.args][(1 if cls is not None else 0):]
-            if len(call.args) + len(call.keywords) == len(params0) and not any(k.arg is None for k in call.keywords) and \
-                    not any(isinstance(x, ast.Starred) for x in call.args):
-                bind0 = dict(zip(params0, call.args))
-                okb = True
-                for k in call.keywords:
-                    if k.arg not in params0 or k.arg in bind0:
-                        okb = False
-                    bind0[k.arg] = k.value
-                # every parameter is used at most once, or its argument is a plain name/attribute chain/constant (no re-evaluation issue)
-                expr = copy.deepcopy(body0[0].value)
-                uses0 = {}
-                for n in ast.walk(expr):
-                    if isinstance(n, ast.Name) and n.id in bind0:
-                        uses0[n.id] = uses0.get(n.id, 0) + 1
-                simple = lambda e: all(isinstance(x, (ast.Name, ast.Attribute, ast.Constant, ast.Load)) for x in ast.walk(e))
-                if okb and set(bind0) == set(params0) and all(uses0.get(p_, 0) <= 1 or simple(bind0[p_]) for p_ in params0) and \
-                        not any(isinstance(n, (ast.Lambda, ast.ListComp, ast.SetComp, ast.DictComp, ast.GeneratorExp)) and
-                                any(isinstance(x, ast.Name) and x.id in bind0 and isinstance(x.ctx, ast.Store) for x in ast.walk(n)) for n in ast.walk(expr)):
-                    class _P(ast.NodeTransformer):
-                        def visit_Name(self, node):
-                            if isinstance(node.ctx, ast.Load) and node.id in bind0:
-                                return ast.copy_location(copy.deepcopy(bind0[node.id]), node)
-                            return node
-                    expr = _P().visit(expr)
+        def _at(ref, helper=helper, cls=cls, home=home, a=a):
+            # the one reference must be the callee of a call that is a whole statement value inside another function
+            # B0: a helper whose body is one `return <expr>` is inlined as an expression, whatever the context of the call
+            #     (comprehension condition, operand of `and`, argument): parameters are substituted by the argument expressions
+            body0 = _strip_doc(helper.body)
+            if len(body0) > 1 and not any(isinstance(n, (ast.For, ast.While, ast.Try, ast.With, ast.Raise, ast.Expr, ast.AugAssign, ast.Delete, ast.Assert))
+                                          for st_ in body0 for n in ast.walk(st_)):
+                folded = _fold_returns(body0)
+                if folded is not None:
+                    body0 = [ast.Return(value=folded)]
+            callers = [c for c in ast.walk(tree) if isinstance(c, ast.Call) and c.func is ref]
+            if len(body0) == 1 and isinstance(body0[0], ast.Return) and body0[0].value is not None and len(callers) == 1:
+                call = callers[0]
+                params0 = [x.arg for x in a.args][(1 if cls is not None else 0):]
+                if len(call.args) + len(call.keywords) == len(params0) and not any(k.arg is None for k in call.keywords) and \
+                        not any(isinstance(x, ast.Starred) for x in call.args):
+                    bind0 = dict(zip(params0, call.args))
+                    okb = True
+                    for k in call.keywords:
+                        if k.arg not in params0 or k.arg in bind0:
+                            okb = False
+                        bind0[k.arg] = k.value
+                    # every parameter is used at most once, or its argument is a plain name/attribute chain/constant (no re-evaluation issue)
+                    expr = copy.deepcopy(body0[0].value)
+                    uses0 = {}
+                    for n in ast.walk(expr):
+                        if isinstance(n, ast.Name) and n.id in bind0:
+                            uses0[n.id] = uses0.get(n.id, 0) + 1
+                    simple = lambda e: all(isinstance(x, (ast.Name, ast.Attribute, ast.Constant, ast.Load)) for x in ast.walk(e))
+                    if okb and set(bind0) == set(params0) and all(uses0.get(p_, 0) <= 1 or simple(bind0[p_]) for p_ in params0) and \
+                            not any(isinstance(n, (ast.Lambda, ast.ListComp, ast.SetComp, ast.DictComp, ast.GeneratorExp)) and
+                                    any(isinstance(x, ast.Name) and x.id in bind0 and isinstance(x.ctx, ast.Store) for x in ast.walk(n)) for n in ast.walk(expr)):
+                        class _P(ast.NodeTransformer):
+                            def visit_Name(self, node):
+                                if isinstance(node.ctx, ast.Load) and node.id in bind0:
+                                    return ast.copy_location(copy.deepcopy(bind0[node.id]), node)
+                                return node
+                        expr = _P().visit(expr)
 
-                    class _C(ast.NodeTransformer):
-                        def visit_Call(self, node):
-                            if node is call:
-                                return ast.copy_location(expr, node)
-                            return self.generic_visit(node)
-                    for i_, t_ in enumerate(tree.body):
-                        tree.body[i_] = _C().visit(t_)
-                    ast.fix_missing_locations(tree)
-                    home.remove(helper)
-                    done.append(('<expr>', helper.name, '<new single-expression helper inlined at its only call>'))
+                        class _C(ast.NodeTransformer):
+                            def visit_Call(self, node):
+                                if node is call:
+                                    return ast.copy_location(expr, node)
+                                return self.generic_visit(node)
+                        for i_, t_ in enumerate(tree.body):
+                            tree.body[i_] = _C().visit(t_)
+                        ast.fix_missing_locations(tree)
+                        done.append(('<expr>', helper.name, '<new single-expression helper inlined at a call>'))
+                        return True
+            site = None
+            for q, f in functions_of(tree):
+                if f is helper:
                     continue
-        site = None
-        for q, f in functions_of(tree):
-            if f is helper:
-                continue
-            for holder in [f] + [n for n in _own(f) if not isinstance(n, FUNC)]:
-                for field in ('body', 'orelse', 'finalbody'):
-                    lst = getattr(holder, field, None)
-                    if not (isinstance(lst, list) and lst and isinstance(lst[0], ast.stmt)):
-                        continue
-                    for i, s in enumerate(lst):
-                        call = None
-                        if isinstance(s, ast.Assign) and len(s.targets) == 1 and isinstance(s.value, ast.Call):
-                            call = s.value
-                        elif isinstance(s, (ast.Return, ast.Expr)) and isinstance(s.value, ast.Call):
-                            call = s.value
-                        if call is not None and call.func is refs[0]:
-                            site = (f, lst, i, s, call)
-                        if isinstance(s, ast.If):
-                            t = s.test
-                            while isinstance(t, ast.UnaryOp) and isinstance(t.op, ast.Not):
-                                t = t.operand
-                            if isinstance(t, ast.Call) and t.func is refs[0]:
-                                # `if helper(...):` - the call is evaluated first: hoist it into a fresh local and inline that assignment
-                                tmp = '_%s__val' % helper.name.lstrip('_')
-                                asg = ast.Assign(targets=[ast.Name(id=tmp, ctx=ast.Store())], value=t)
-                                ast.copy_location(asg, s)
-                                ast.fix_missing_locations(asg)
+                for holder in [f] + [n for n in _own(f) if not isinstance(n, FUNC)]:
+                    for field in ('body', 'orelse', 'finalbody'):
+                        lst = getattr(holder, field, None)
+                        if not (isinstance(lst, list) and lst and isinstance(lst[0], ast.stmt)):
+                            continue
+                        for i, s in enumerate(lst):
+                            call = None
+                            if isinstance(s, ast.Assign) and len(s.targets) == 1 and isinstance(s.value, ast.Call):
+                                call = s.value
+                            elif isinstance(s, (ast.Return, ast.Expr)) and isinstance(s.value, ast.Call):
+                                call = s.value
+                            if call is not None and call.func is ref:
+                                site = (f, lst, i, s, call)
+                            if isinstance(s, ast.If):
+                                t = s.test
+                                while isinstance(t, ast.UnaryOp) and isinstance(t.op, ast.Not):
+                                    t = t.operand
+                                if isinstance(t, ast.Call) and t.func is ref:
+                                    # `if helper(...):` - the call is evaluated first: hoist it into a fresh local and inline that assignment
+                                    tmp = '_%s__val' % helper.name.lstrip('_')
+                                    asg = ast.Assign(targets=[ast.Name(id=tmp, ctx=ast.Store())], value=t)
+                                    ast.copy_location(asg, s)
+                                    ast.fix_missing_locations(asg)
 
-                                class _R(ast.NodeTransformer):
-                                    def visit_Call(self, node, t=t, tmp=tmp):
-                                        if node is t:
-                                            return ast.copy_location(ast.Name(id=tmp, ctx=ast.Load()), node)
-                                        return self.generic_visit(node)
-                                s.test = _R().visit(s.test)
-                                lst.insert(i, asg)
-                                site = (f, lst, i, asg, t)
-                                break
-                if isinstance(holder, ast.Try):
-                    for h in holder.handlers:
-                        for i, s in enumerate(h.body):
-                            call = s.value if isinstance(s, (ast.Assign, ast.Return, ast.Expr)) and isinstance(getattr(s, 'value', None), ast.Call) else None
-                            if call is not None and call.func is refs[0] and (not isinstance(s, ast.Assign) or len(s.targets) == 1):
-                                site = (f, h.body, i, s, call)
-        if site is None:
-            continue
-        caller, lst, i, stmt, call = site
-        params = [x.arg for x in a.args]
-        if cls is not None:
-            params = params[1:]             # `self` of the helper is the caller's `self`
-            if not (caller.args.args and caller.args.args[0].arg == 'self'):
-                continue
-        if len(call.args) + len(call.keywords) != len(params) or any(k.arg is None for k in call.keywords) or \
-                any(isinstance(x, ast.Starred) for x in call.args):
-            continue            # defaults in play: leave it
-        bind = dict(zip(params, call.args))
-        for k in call.keywords:
-            if k.arg not in params or k.arg in bind:
-                bind = None
-                break
-            bind[k.arg] = k.value
-        if bind is None or set(bind) != set(params):
-            continue
-        body = copy.deepcopy(_strip_doc(helper.body))
-        if not body:
-            continue
-        stored = {n.id for s in body for n in ast.walk(s) if isinstance(n, ast.Name) and isinstance(n.ctx, (ast.Store, ast.Del))}
-        # helper locals that clash with names of the caller get a suffix
-        caller_names = _all_names(caller)
-        mapping = {}
-        # the helper's local that carries the result may keep its name when that name is the very target of the call and the caller
-        # binds it nowhere else (extracting `xs = []; for ..: xs.append(..)` into `xs = helper()` keeps the name `xs` in both)
-        same_as_target = None
-        if isinstance(stmt, ast.Assign) and isinstance(stmt.targets[0], ast.Name):
-            tn = stmt.targets[0].id
-            other_stores = [x for x in ast.walk(caller) if isinstance(x, ast.Name) and x.id == tn and isinstance(x.ctx, (ast.Store, ast.Del))
-                            and x is not stmt.targets[0]]
-            early_loads = [x for x in ast.walk(caller) if isinstance(x, ast.Name) and x.id == tn and isinstance(x.ctx, ast.Load)
-                           and getattr(x, 'lineno', 0) < stmt.lineno]
-            if not other_stores and not early_loads:
-                same_as_target = tn
-        for nm in stored - set(params):
-            if nm in caller_names and nm != same_as_target:
-                mapping[nm] = nm + '__inl'
-        pre = []
-        for p_, arg in bind.items():
-            if isinstance(arg, ast.Name) and p_ not in stored:
-                mapping[p_] = arg.id
-            else:
-                tgt = p_ if p_ not in caller_names or (isinstance(arg, ast.Name) and arg.id == p_) else p_ + '__inl'
-                if tgt != p_:
-                    mapping[p_] = tgt
-                if not (isinstance(arg, ast.Name) and arg.id == tgt):
-                    pre.append(ast.Assign(targets=[ast.Name(id=tgt, ctx=ast.Store())], value=copy.deepcopy(arg)))
-        ren = _Rename(mapping)
-        body = [ren.visit(s) for s in body]
-        rets = _own_returns(body)
-        tail_only = len(rets) == 1 and body[-1] is rets[0]
-        falls_off = not isinstance(body[-1], (ast.Return, ast.Raise))
-        new = list(pre)
-        if isinstance(stmt, ast.Return):
-            new += body
-            if falls_off:
-                new.append(ast.Return(value=ast.Constant(value=None)))
-        elif tail_only:
-            val = rets[0].value if rets[0].value is not None else ast.Constant(value=None)
-            new += body[:-1]
-            if isinstance(stmt, ast.Assign):
-                if ast.unparse(stmt.targets[0]) != ast.unparse(val):
-                    new.append(ast.Assign(targets=[copy.deepcopy(stmt.targets[0])], value=val))
-            else:
-                new.append(ast.Expr(value=val))
-        else:
-            def make(value, stmt=stmt):
-                v = value if value is not None else ast.Constant(value=None)
+                                    class _R(ast.NodeTransformer):
+                                        def visit_Call(self, node, t=t, tmp=tmp):
+                                            if node is t:
+                                                return ast.copy_location(ast.Name(id=tmp, ctx=ast.Load()), node)
+                                            return self.generic_visit(node)
+                                    s.test = _R().visit(s.test)
+                                    lst.insert(i, asg)
+                                    site = (f, lst, i, asg, t)
+                                    break
+                    if isinstance(holder, ast.Try):
+                        for h in holder.handlers:
+                            for i, s in enumerate(h.body):
+                                call = s.value if isinstance(s, (ast.Assign, ast.Return, ast.Expr)) and isinstance(getattr(s, 'value', None), ast.Call) else None
+                                if call is not None and call.func is ref and (not isinstance(s, ast.Assign) or len(s.targets) == 1):
+                                    site = (f, h.body, i, s, call)
+            if site is None:
+                return False
+            caller, lst, i, stmt, call = site
+            params = [x.arg for x in a.args]
+            if cls is not None:
+                params = params[1:]             # `self` of the helper is the caller's `self`
+                if not (caller.args.args and caller.args.args[0].arg == 'self'):
+                    return False
+            if len(call.args) + len(call.keywords) != len(params) or any(k.arg is None for k in call.keywords) or \
+                    any(isinstance(x, ast.Starred) for x in call.args):
+                return False        # defaults in play: leave it
+            bind = dict(zip(params, call.args))
+            for k in call.keywords:
+                if k.arg not in params or k.arg in bind:
+                    bind = None
+                    break
+                bind[k.arg] = k.value
+            if bind is None or set(bind) != set(params):
+                return False
+            body = copy.deepcopy(_strip_doc(helper.body))
+            if not body:
+                return False
+            stored = {n.id for s in body for n in ast.walk(s) if isinstance(n, ast.Name) and isinstance(n.ctx, (ast.Store, ast.Del))}
+            # helper locals that clash with names of the caller get a suffix
+            caller_names = _all_names(caller)
+            mapping = {}
+            # the helper's local that carries the result may keep its name when that name is the very target of the call and the caller
+            # binds it nowhere else (extracting `xs = []; for ..: xs.append(..)` into `xs = helper()` keeps the name `xs` in both)
+            same_as_target = None
+            if isinstance(stmt, ast.Assign) and isinstance(stmt.targets[0], ast.Name):
+                tn = stmt.targets[0].id
+                other_stores = [x for x in ast.walk(caller) if isinstance(x, ast.Name) and x.id == tn and isinstance(x.ctx, (ast.Store, ast.Del))
+                                and x is not stmt.targets[0]]
+                early_loads = [x for x in ast.walk(caller) if isinstance(x, ast.Name) and x.id == tn and isinstance(x.ctx, ast.Load)
+                               and getattr(x, 'lineno', 0) < stmt.lineno]
+                if not other_stores and not early_loads:
+                    same_as_target = tn
+            for nm in stored - set(params):
+                if nm in caller_names and nm != same_as_target:
+                    mapping[nm] = nm + '__inl'
+            pre = []
+            for p_, arg in bind.items():
+                if isinstance(arg, ast.Name) and p_ not in stored:
+                    mapping[p_] = arg.id
+                else:
+                    tgt = p_ if p_ not in caller_names or (isinstance(arg, ast.Name) and arg.id == p_) else p_ + '__inl'
+                    if tgt != p_:
+                        mapping[p_] = tgt
+                    if not (isinstance(arg, ast.Name) and arg.id == tgt):
+                        pre.append(ast.Assign(targets=[ast.Name(id=tgt, ctx=ast.Store())], value=copy.deepcopy(arg)))
+            ren = _Rename(mapping)
+            body = [ren.visit(s) for s in body]
+            rets = _own_returns(body)
+            tail_only = len(rets) == 1 and body[-1] is rets[0]
+            falls_off = not isinstance(body[-1], (ast.Return, ast.Raise))
+            new = list(pre)
+            if isinstance(stmt, ast.Return):
+                new += body
+                if falls_off:
+                    new.append(ast.Return(value=ast.Constant(value=None)))
+            elif tail_only:
+                val = rets[0].value if rets[0].value is not None else ast.Constant(value=None)
+                new += body[:-1]
                 if isinstance(stmt, ast.Assign):
-                    if ast.unparse(stmt.targets[0]) == ast.unparse(v):
-                        return [ast.Break()]        # `x = x`: the value is already where it belongs
-                    return [ast.Assign(targets=[copy.deepcopy(stmt.targets[0])], value=v), ast.Break()]
-                return [ast.Expr(value=v), ast.Break()]
-            inner = _replace_returns(body, make)
-            if falls_off and isinstance(stmt, ast.Assign):
-                inner.append(ast.Assign(targets=[copy.deepcopy(stmt.targets[0])], value=ast.Constant(value=None)))
-            new.append(ast.For(target=ast.Name(id='_once', ctx=ast.Store()),
-                               iter=ast.Tuple(elts=[ast.Constant(value=None)], ctx=ast.Load()), body=inner, orelse=[]))
-        for k_, n in enumerate(new):
-            for x in ast.walk(n):
-                # the inlined statements sit where the call was (their own line numbers belong to the helper's old place); keep their
-                # order by a fractional offset that stays below the next line
-                if hasattr(x, 'lineno') or isinstance(x, (ast.stmt, ast.expr)):
-                    x.lineno = stmt.lineno
-                    x.end_lineno = getattr(stmt, 'end_lineno', stmt.lineno)
-                    x.col_offset = getattr(stmt, 'col_offset', 0)
-                    x.end_col_offset = getattr(stmt, 'end_col_offset', 0)
-            ast.fix_missing_locations(n)
-        lst[i:i + 1] = new
-        home.remove(helper)
-        done.append((caller.name, helper.name, '<new helper inlined into its only caller>'))
+                    if ast.unparse(stmt.targets[0]) != ast.unparse(val):
+                        new.append(ast.Assign(targets=[copy.deepcopy(stmt.targets[0])], value=val))
+                else:
+                    new.append(ast.Expr(value=val))
+            else:
+                def make(value, stmt=stmt):
+                    v = value if value is not None else ast.Constant(value=None)
+                    if isinstance(stmt, ast.Assign):
+                        if ast.unparse(stmt.targets[0]) == ast.unparse(v):
+                            return [ast.Break()]        # `x = x`: the value is already where it belongs
+                        return [ast.Assign(targets=[copy.deepcopy(stmt.targets[0])], value=v), ast.Break()]
+                    return [ast.Expr(value=v), ast.Break()]
+                inner = _replace_returns(body, make)
+                if falls_off and isinstance(stmt, ast.Assign):
+                    inner.append(ast.Assign(targets=[copy.deepcopy(stmt.targets[0])], value=ast.Constant(value=None)))
+                new.append(ast.For(target=ast.Name(id='_once', ctx=ast.Store()),
+                                   iter=ast.Tuple(elts=[ast.Constant(value=None)], ctx=ast.Load()), body=inner, orelse=[]))
+            for k_, n in enumerate(new):
+                for x in ast.walk(n):
+                    # the inlined statements sit where the call was (their own line numbers belong to the helper's old place); keep their
+                    # order by a fractional offset that stays below the next line
+                    if hasattr(x, 'lineno') or isinstance(x, (ast.stmt, ast.expr)):
+                        x.lineno = stmt.lineno
+                        x.end_lineno = getattr(stmt, 'end_lineno', stmt.lineno)
+                        x.col_offset = getattr(stmt, 'col_offset', 0)
+                        x.end_col_offset = getattr(stmt, 'end_col_offset', 0)
+                ast.fix_missing_locations(n)
+            lst[i:i + 1] = new
+            done.append((caller.name, helper.name, '<new helper inlined into a caller>'))
+            return True
+
+        # every call site must take the body (the helper stays when one cannot; the inlined sites remain equivalent code)
+        if all([_at(r) for r in refs]):
+            home.remove(helper)
 
 
 # ------------------------------------------------------------------------------------------------ A: new temporaries
@@ -561,6 +648,146 @@ def _inline_new_temps(func, known, done, qual):
                     break
             if changed:
                 break
+
+
+# ------------------------------------------------------------------------------------------------ E: comparison spelling
+_COMPLEMENT = {ast.In: ast.NotIn, ast.NotIn: ast.In, ast.Is: ast.IsNot, ast.IsNot: ast.Is, ast.Eq: ast.NotEq, ast.NotEq: ast.Eq}
+
+
+class _CanonCompare(ast.NodeTransformer):
+    """`CONST == x` -> `x == CONST`; `not a in b` -> `a not in b` (likewise is / ==): one spelling per comparison, so that no rule
+    depends on which of the equivalent spellings the source uses."""
+    def visit_Compare(self, node):
+        self.generic_visit(node)
+        if len(node.ops) == 1 and isinstance(node.ops[0], (ast.Eq, ast.NotEq)) and isinstance(node.left, ast.Constant) \
+                and not isinstance(node.comparators[0], ast.Constant):
+            node.left, node.comparators[0] = node.comparators[0], node.left
+        return node
+
+    def visit_BoolOp(self, node):
+        # `x == 'a' or x == 'b'` -> `x in ('a', 'b')`; `x != 'a' and x != 'b'` -> `x not in ('a', 'b')` (runs of neighbouring operands that
+        # compare the same side-effect-free expression with constants; an existing `x in (consts)` operand joins the run)
+        self.generic_visit(node)
+        is_or = isinstance(node.op, ast.Or)
+        one, many = (ast.Eq, ast.In) if is_or else (ast.NotEq, ast.NotIn)
+
+        def member(e):
+            if not (isinstance(e, ast.Compare) and len(e.ops) == 1):
+                return None
+            l, r = e.left, e.comparators[0]
+            if not all(isinstance(x, (ast.Name, ast.Attribute, ast.Load)) for x in ast.walk(l)):
+                return None
+            if isinstance(e.ops[0], one) and isinstance(r, ast.Constant) and isinstance(r.value, (str, bytes, int)) and not isinstance(r.value, bool):
+                return ast.unparse(l), [r]
+            if isinstance(e.ops[0], many) and isinstance(r, (ast.Tuple, ast.List)) and r.elts and all(isinstance(x, ast.Constant) for x in r.elts):
+                return ast.unparse(l), list(r.elts)
+            return None
+        out, i = [], 0
+        vals = node.values
+        while i < len(vals):
+            m = member(vals[i])
+            j = i + 1
+            if m is not None:
+                elts = list(m[1])
+                while j < len(vals):
+                    m2 = member(vals[j])
+                    if m2 is None or m2[0] != m[0]:
+                        break
+                    elts += m2[1]
+                    j += 1
+                if j - i >= 2:
+                    first = vals[i]
+                    c = ast.Compare(left=first.left, ops=[many()], comparators=[ast.Tuple(elts=elts, ctx=ast.Load())])
+                    ast.copy_location(c, first)
+                    ast.copy_location(c.comparators[0], first)
+                    c.end_lineno, c.end_col_offset = getattr(vals[j - 1], 'end_lineno', None), getattr(vals[j - 1], 'end_col_offset', None)
+                    out.append(c)
+                    i = j
+                    continue
+            out.append(vals[i])
+            i += 1
+        if len(out) == 1:
+            return out[0]
+        node.values = out
+        return node
+
+    def visit_UnaryOp(self, node):
+        self.generic_visit(node)
+        if isinstance(node.op, ast.Not) and isinstance(node.operand, ast.Compare) and len(node.operand.ops) == 1 \
+                and type(node.operand.ops[0]) in _COMPLEMENT:
+            c = node.operand
+            c.ops = [_COMPLEMENT[type(c.ops[0])]()]
+            return ast.copy_location(c, node)
+        return node
+
+
+def _truth(e):
+    """e in a position where only its truth value is used: `True if T else E` -> `T or E` and the three sibling forms"""
+    if isinstance(e, ast.IfExp):
+        t, b, o = _truth(e.test), _truth(e.body), _truth(e.orelse)
+        const = lambda x, v: isinstance(x, ast.Constant) and x.value is v
+        if const(b, True):
+            r = ast.BoolOp(op=ast.Or(), values=[t, o])
+        elif const(b, False):
+            r = ast.BoolOp(op=ast.And(), values=[ast.UnaryOp(op=ast.Not(), operand=t), o])
+        elif const(o, False):
+            r = ast.BoolOp(op=ast.And(), values=[t, b])
+        elif const(o, True):
+            r = ast.BoolOp(op=ast.Or(), values=[ast.UnaryOp(op=ast.Not(), operand=t), b])
+        else:
+            e.test, e.body, e.orelse = t, b, o
+            return e
+        return ast.fix_missing_locations(ast.copy_location(r, e))
+    if isinstance(e, ast.BoolOp):
+        e.values = [_truth(v) for v in e.values]
+        return e
+    if isinstance(e, ast.UnaryOp) and isinstance(e.op, ast.Not):
+        e.operand = _truth(e.operand)
+        return e
+    return e
+
+
+class _CanonTests(ast.NodeTransformer):
+    def visit_If(self, node):
+        self.generic_visit(node)
+        node.test = _truth(node.test)
+        return node
+    visit_While = visit_If
+
+    def visit_IfExp(self, node):
+        self.generic_visit(node)
+        node.test = _truth(node.test)
+        return node
+
+    def visit_comprehension(self, node):
+        self.generic_visit(node)
+        node.ifs = [_truth(x) for x in node.ifs]
+        return node
+
+    def visit_Assert(self, node):
+        self.generic_visit(node)
+        node.test = _truth(node.test)
+        return node
+
+
+class _Flatten(ast.NodeTransformer):
+    def visit_BoolOp(self, node):
+        self.generic_visit(node)
+        vals = []
+        for v in node.values:
+            if isinstance(v, ast.BoolOp) and type(v.op) is type(node.op):
+                vals.extend(v.values)       # `a or (b or c)` is `a or b or c`: same operands, same order, same short-circuit
+            else:
+                vals.append(v)
+        node.values = vals
+        return node
+
+
+def canonicalise_comparisons(tree):
+    _CanonTests().visit(tree)
+    _Flatten().visit(tree)
+    _CanonCompare().visit(tree)
+    return tree
 
 
 # ------------------------------------------------------------------------------------------------ entry
